@@ -542,3 +542,282 @@ Section TriBwd.
       eapply IH; eauto.
   Qed.
 End TriBwd.
+
+(** * Part B: a single capture layer refines the specification *)
+
+(** ** The abstract forest: facts that depend only on metadata and logical parents *)
+Definition plt (spans : list aspan) : Prop :=
+  forall k s p, nth_error spans k = Some s -> as_lparent s = Some p -> (p < k)%nat.
+Definition skel (spans : list aspan) : list (cs_data * option nat) :=
+  map (fun s => (as_meta s, as_lparent s)) spans.
+
+Lemma skel_length a b : skel a = skel b -> List.length a = List.length b.
+Proof. intros H. apply (f_equal (@List.length _)) in H. unfold skel in H. rewrite !map_length in H. exact H. Qed.
+
+Lemma skel_nth a b k :
+  skel a = skel b ->
+  match nth_error a k, nth_error b k with
+  | Some s, Some s' => as_meta s = as_meta s' /\ as_lparent s = as_lparent s'
+  | None, None => True
+  | _, _ => False
+  end.
+Proof.
+  intros H. apply (f_equal (fun l => nth_error l k)) in H. unfold skel in H. rewrite !nth_error_map in H.
+  destruct (nth_error a k), (nth_error b k); cbn in H; try discriminate; auto.
+  injection H as -> ->. auto.
+Qed.
+
+Section Spec.
+  Variable f : cs_data -> bool.
+
+  Lemma nearest_cap_skel a b : skel a = skel b ->
+    forall fuel start, nearest_cap f a fuel start = nearest_cap f b fuel start.
+  Proof.
+    intros H. induction fuel as [|n IH]; intros [p|]; cbn; try reflexivity.
+    pose proof (skel_nth a b p H) as Hp.
+    destruct (nth_error a p) as [s|], (nth_error b p) as [s'|]; try contradiction; [|reflexivity].
+    destruct Hp as [-> ->]. destruct (f (as_meta s')); [reflexivity | apply IH].
+  Qed.
+
+  Lemma attach_skel a b start : skel a = skel b -> attach f a start = attach f b start.
+  Proof. intros H. unfold attach. rewrite (skel_length _ _ H). apply nearest_cap_skel. exact H. Qed.
+
+  Lemma captured_skel a b k : skel a = skel b -> captured f a k = captured f b k.
+  Proof.
+    intros H. unfold captured. pose proof (skel_nth a b k H) as Hk.
+    destruct (nth_error a k), (nth_error b k); try contradiction; [|reflexivity]. destruct Hk as [-> _]. reflexivity.
+  Qed.
+
+  Lemma lparent_of_skel a b k : skel a = skel b -> lparent_of a k = lparent_of b k.
+  Proof.
+    intros H. unfold lparent_of. pose proof (skel_nth a b k H) as Hk.
+    destruct (nth_error a k), (nth_error b k); try contradiction; [|reflexivity]. destruct Hk as [_ ->]. reflexivity.
+  Qed.
+
+  Lemma span_attach_skel a b k : skel a = skel b -> span_attach f a k = span_attach f b k.
+  Proof. intros H. unfold span_attach. rewrite (lparent_of_skel _ _ k H). apply attach_skel. exact H. Qed.
+
+  Lemma cap_rank_meta a k :
+    cap_rank f a k = N.of_nat (List.length (List.filter f (firstn k (map as_meta a)))).
+  Proof.
+    unfold cap_rank. f_equal. rewrite firstn_map. generalize (firstn k a). intros l.
+    induction l as [|s l IH]; cbn; [reflexivity|]. destruct (f (as_meta s)); cbn; congruence.
+  Qed.
+
+  Lemma cap_rank_skel a b k : skel a = skel b -> cap_rank f a k = cap_rank f b k.
+  Proof.
+    intros H. rewrite !cap_rank_meta. apply (f_equal (map fst)) in H. unfold skel in H.
+    rewrite !map_map in H. cbn [fst] in H.
+    change (map (fun x : aspan => as_meta x) a) with (map as_meta a) in H.
+    change (map (fun x : aspan => as_meta x) b) with (map as_meta b) in H.
+    rewrite H. reflexivity.
+  Qed.
+
+  Lemma attached_spans_skel a b K : skel a = skel b -> attached_spans f a K = attached_spans f b K.
+  Proof.
+    intros H. unfold attached_spans. rewrite (skel_length _ _ H). apply filter_ext. intros c.
+    rewrite (captured_skel _ _ c H), (span_attach_skel _ _ c H). reflexivity.
+  Qed.
+
+  Lemma event_attach_skel a b evs i : skel a = skel b -> event_attach f a evs i = event_attach f b evs i.
+  Proof. intros H. unfold event_attach. destruct (nth_error evs i); [|reflexivity]. apply attach_skel. exact H. Qed.
+
+  Lemma attached_events_skel a b evs K : skel a = skel b -> attached_events f a evs K = attached_events f b evs K.
+  Proof.
+    intros H. unfold attached_events. apply filter_ext. intros i. rewrite (event_attach_skel _ _ evs i H). reflexivity.
+  Qed.
+
+  (** *** fuel *)
+  Lemma nearest_cap_fuel l : plt l -> forall fuel fuel' start,
+    (forall p, start = Some p -> (p < fuel)%nat /\ (p < fuel')%nat) ->
+    nearest_cap f l fuel start = nearest_cap f l fuel' start.
+  Proof.
+    intros Hl. induction fuel as [|n IH]; intros fuel' [p|] Hp; try (destruct fuel'; reflexivity).
+    - destruct (Hp p eq_refl). lia.
+    - destruct (Hp p eq_refl) as [H1 H2]. destruct fuel' as [|n']; [lia|]. cbn.
+      destruct (nth_error l p) as [s|] eqn:E; [|reflexivity].
+      destruct (f (as_meta s)); [reflexivity|]. apply IH. intros q Hq.
+      pose proof (Hl p s q E Hq). lia.
+  Qed.
+
+  Lemma nearest_cap_some l fuel start p :
+    nearest_cap f l fuel start = Some p -> captured f l p = true /\ (p < List.length l)%nat.
+  Proof.
+    revert start. induction fuel as [|n IH]; intros [q|]; cbn; try discriminate.
+    destruct (nth_error l q) as [s|] eqn:E; [|discriminate].
+    destruct (f (as_meta s)) eqn:Ef.
+    - intros H. injection H as <-. unfold captured. rewrite E. split; [exact Ef|].
+      apply nth_error_Some. congruence.
+    - apply IH.
+  Qed.
+
+  Lemma nearest_cap_le l : plt l -> forall fuel start q p,
+    start = Some q -> nearest_cap f l fuel start = Some p -> (p <= q)%nat.
+  Proof.
+    intros Hl. induction fuel as [|n IH]; intros start q p -> H; cbn in H; [discriminate|].
+    destruct (nth_error l q) as [s|] eqn:E; [|discriminate].
+    destruct (f (as_meta s)); [injection H as <-; lia|].
+    destruct (as_lparent s) as [q'|] eqn:Eq; [|destruct n; discriminate].
+    pose proof (Hl q s q' E Eq). specialize (IH (Some q') q' p eq_refl H). lia.
+  Qed.
+
+  Lemma span_attach_lt l k p : plt l -> span_attach f l k = Some p -> (p < k)%nat.
+  Proof.
+    intros Hl H. unfold span_attach, attach, lparent_of in H.
+    destruct (nth_error l k) as [s|] eqn:E; [|discriminate].
+    destruct (as_lparent s) as [q|] eqn:Eq; [|discriminate].
+    pose proof (Hl k s q E Eq). pose proof (nearest_cap_le l Hl _ _ q p eq_refl H). lia.
+  Qed.
+
+  (** *** appending a span *)
+  Lemma nearest_cap_app l x : plt l -> forall fuel start,
+    (forall p, start = Some p -> (p < List.length l)%nat) ->
+    nearest_cap f (l ++ [x]) fuel start = nearest_cap f l fuel start.
+  Proof.
+    intros Hl. induction fuel as [|n IH]; intros [p|] Hp; cbn; try reflexivity.
+    specialize (Hp p eq_refl) as Hlt. rewrite nth_error_app1 by exact Hlt.
+    destruct (nth_error l p) as [s|] eqn:E; [|reflexivity].
+    destruct (f (as_meta s)); [reflexivity|]. apply IH. intros q Hq. pose proof (Hl p s q E Hq). lia.
+  Qed.
+
+  Lemma attach_app l x start :
+    plt l -> (forall p, start = Some p -> (p < List.length l)%nat) ->
+    attach f (l ++ [x]) start = attach f l start.
+  Proof.
+    intros Hl Hp. unfold attach. rewrite (nearest_cap_app l x Hl _ _ Hp).
+    apply nearest_cap_fuel; [exact Hl|]. intros p E. specialize (Hp p E). rewrite app_length. cbn. lia.
+  Qed.
+
+  Lemma cap_rank_app l x k : (k <= List.length l)%nat -> cap_rank f (l ++ [x]) k = cap_rank f l k.
+  Proof. intros H. unfold cap_rank. rewrite firstn_app. replace (k - List.length l)%nat with O by lia. cbn. rewrite app_nil_r. reflexivity. Qed.
+
+  Lemma cap_rank_S l k s :
+    nth_error l k = Some s ->
+    cap_rank f l (S k) = cap_rank f l k + (if f (as_meta s) then 1 else 0).
+  Proof.
+    intros E. unfold cap_rank.
+    assert (H : firstn (S k) l = firstn k l ++ [s]).
+    { revert k E. induction l as [|a l IH]; intros [|k] E; cbn in *; try discriminate.
+      - injection E as ->. reflexivity.
+      - f_equal. apply IH. exact E. }
+    rewrite H, filter_app, app_length. cbn. destruct (f (as_meta s)); cbn; lia.
+  Qed.
+
+  Lemma cap_rank_mono l k k' : (k <= k')%nat -> cap_rank f l k <= cap_rank f l k'.
+  Proof.
+    intros H. induction H as [|m H IH]; [lia|].
+    destruct (nth_error l m) as [s|] eqn:E.
+    - rewrite (cap_rank_S _ _ _ E). destruct (f (as_meta s)); lia.
+    - unfold cap_rank in *. apply nth_error_None in E.
+      rewrite (firstn_all2 (n := S m)) by lia. rewrite (firstn_all2 (n := m)) in IH by lia. exact IH.
+  Qed.
+
+  Lemma cap_rank_lt l k k' : captured f l k = true -> (k < k')%nat -> cap_rank f l k < cap_rank f l k'.
+  Proof.
+    intros Hc H. unfold captured in Hc. destruct (nth_error l k) as [s|] eqn:E; [|discriminate].
+    pose proof (cap_rank_S _ _ _ E) as HS. rewrite Hc in HS.
+    pose proof (cap_rank_mono l (S k) k' H). lia.
+  Qed.
+
+  Lemma cap_rank_inj l k k' :
+    captured f l k = true -> captured f l k' = true -> cap_rank f l k = cap_rank f l k' -> k = k'.
+  Proof.
+    intros H1 H2 E. destruct (Nat.lt_trichotomy k k') as [H|[H|H]]; [|exact H|].
+    - pose proof (cap_rank_lt l k k' H1 H). lia.
+    - pose proof (cap_rank_lt l k' k H2 H). lia.
+  Qed.
+
+  Lemma captured_app l x k :
+    captured f (l ++ [x]) k =
+    if Nat.ltb k (List.length l) then captured f l k else Nat.eqb k (List.length l) && f (as_meta x).
+  Proof.
+    unfold captured. rewrite nth_error_snoc'. destruct (Nat.ltb k (List.length l)); [reflexivity|].
+    destruct (Nat.eqb k (List.length l)); reflexivity.
+  Qed.
+
+  Lemma captured_lt l k : captured f l k = true -> (k < List.length l)%nat.
+  Proof. unfold captured. destruct (nth_error l k) eqn:E; [|discriminate]. intros _. apply nth_error_Some. congruence. Qed.
+
+  Lemma lparent_of_app l x k :
+    lparent_of (l ++ [x]) k =
+    if Nat.ltb k (List.length l) then lparent_of l k
+    else if Nat.eqb k (List.length l) then as_lparent x else None.
+  Proof.
+    unfold lparent_of. rewrite nth_error_snoc'. destruct (Nat.ltb k (List.length l)); [reflexivity|].
+    destruct (Nat.eqb k (List.length l)); reflexivity.
+  Qed.
+
+  Lemma lparent_of_lt l k p : plt l -> lparent_of l k = Some p -> (p < k)%nat /\ (k < List.length l)%nat.
+  Proof.
+    intros Hl. unfold lparent_of. destruct (nth_error l k) as [s|] eqn:E; [|discriminate].
+    intros H. split; [eapply Hl; eauto|]. apply nth_error_Some. congruence.
+  Qed.
+
+  Lemma span_attach_app l x k :
+    plt l -> (k < List.length l)%nat -> span_attach f (l ++ [x]) k = span_attach f l k.
+  Proof.
+    intros Hl Hk. unfold span_attach. rewrite lparent_of_app.
+    destruct (Nat.ltb_spec k (List.length l)); [|lia]. apply attach_app; [exact Hl|].
+    intros p Hp. apply (lparent_of_lt l k p Hl) in Hp. lia.
+  Qed.
+
+  Lemma span_attach_new l x :
+    plt l -> (forall p, as_lparent x = Some p -> (p < List.length l)%nat) ->
+    span_attach f (l ++ [x]) (List.length l) = attach f l (as_lparent x).
+  Proof.
+    intros Hl Hx. unfold span_attach. rewrite lparent_of_app, Nat.ltb_irrefl, Nat.eqb_refl.
+    apply attach_app; assumption.
+  Qed.
+
+  Lemma attached_spans_app l x K :
+    plt l -> (forall p, as_lparent x = Some p -> (p < List.length l)%nat) ->
+    attached_spans f (l ++ [x]) K =
+    attached_spans f l K ++
+    (if f (as_meta x) && opt_nat_eqb (attach f l (as_lparent x)) K then [List.length l] else []).
+  Proof.
+    intros Hl Hx. unfold attached_spans. rewrite app_length. cbn [List.length].
+    rewrite Nat.add_1_r, seq_S, filter_app. cbn [List.filter Nat.add]. f_equal.
+    - apply filter_ext_in. intros c Hc. apply in_seq in Hc. rewrite captured_app.
+      destruct (Nat.ltb_spec c (List.length l)); [|lia]. rewrite span_attach_app by (auto; lia). reflexivity.
+    - rewrite captured_app, Nat.ltb_irrefl, Nat.eqb_refl, span_attach_new by assumption. cbn [andb].
+      destruct (f (as_meta x) && opt_nat_eqb (attach f l (as_lparent x)) K); reflexivity.
+  Qed.
+
+  Definition evs_bounded (l : list aspan) (evs : list aevent) : Prop :=
+    forall i e p, nth_error evs i = Some e -> ae_lparent e = Some p -> (p < List.length l)%nat.
+
+  Lemma event_attach_app l x evs i :
+    plt l -> evs_bounded l evs -> event_attach f (l ++ [x]) evs i = event_attach f l evs i.
+  Proof.
+    intros Hl Hb. unfold event_attach. destruct (nth_error evs i) as [e|] eqn:E; [|reflexivity].
+    apply attach_app; [exact Hl|]. intros p Hp. eapply Hb; eauto.
+  Qed.
+
+  Lemma attached_events_app_span l x evs K :
+    plt l -> evs_bounded l evs -> attached_events f (l ++ [x]) evs K = attached_events f l evs K.
+  Proof.
+    intros Hl Hb. unfold attached_events. apply filter_ext. intros i. rewrite event_attach_app by assumption. reflexivity.
+  Qed.
+
+  Lemma event_attach_snoc l evs e i :
+    event_attach f l (evs ++ [e]) i =
+    if Nat.ltb i (List.length evs) then event_attach f l evs i
+    else if Nat.eqb i (List.length evs) then attach f l (ae_lparent e) else None.
+  Proof.
+    unfold event_attach. rewrite nth_error_snoc'. destruct (Nat.ltb i (List.length evs)); [reflexivity|].
+    destruct (Nat.eqb i (List.length evs)); reflexivity.
+  Qed.
+
+  Lemma attached_events_snoc l evs e K :
+    attached_events f l (evs ++ [e]) K =
+    attached_events f l evs K ++
+    (if opt_nat_eqb (attach f l (ae_lparent e)) K then [List.length evs] else []).
+  Proof.
+    unfold attached_events. rewrite app_length. cbn [List.length].
+    rewrite Nat.add_1_r, seq_S, filter_app. cbn [List.filter Nat.add]. f_equal.
+    - apply filter_ext_in. intros c Hc. apply in_seq in Hc. rewrite event_attach_snoc.
+      destruct (Nat.ltb_spec c (List.length evs)); [reflexivity | lia].
+    - rewrite event_attach_snoc, Nat.ltb_irrefl, Nat.eqb_refl.
+      destruct (opt_nat_eqb (attach f l (ae_lparent e)) K); reflexivity.
+  Qed.
+End Spec.
